@@ -967,6 +967,17 @@ fn scenarios(tier: Tier, backend: Backend, server_db: bool) -> Vec<Scenario> {
             }
         }
     }
+    // forced overwrites: one device rewrites the default folder's history
+    // (compaction) around a header change or an update, the other device
+    // has nothing / an append / its own rename and must take the rewritten
+    // log as a whole (force merge)
+    for x in force_merge_suffixes() {
+        for y in [vec![], vec![Edit::CreateNote], vec![Edit::RenameDefaultOwn]] {
+            for o in &orders {
+                out.push(Scenario { edits: vec![x.clone(), y.clone()], order: o.clone(), clock: clocks[0], client_backend: backend, server_db });
+            }
+        }
+    }
     if tier == Tier::Thorough {
         // L = 2 on both sides over the small alphabet
         for a in &doubles {
@@ -991,6 +1002,18 @@ fn scenarios(tier: Tier, backend: Backend, server_db: bool) -> Vec<Scenario> {
         }
     }
     out
+}
+
+fn force_merge_suffixes() -> Vec<Vec<Edit>> {
+    vec![
+        vec![Edit::RenameDefaultOwn, Edit::CompactDefault],
+        vec![Edit::CompactDefault, Edit::RenameDefaultOwn],
+        vec![Edit::UpdateS0, Edit::CompactDefault],
+    ]
+}
+
+fn is_force_merge_world(sc: &Scenario) -> bool {
+    sc.edits.iter().any(|e| e.len() == 2 && e.contains(&Edit::CompactDefault))
 }
 
 fn rt() -> tokio::runtime::Runtime {
@@ -1024,14 +1047,26 @@ fn all_scenarios(tier: Tier) -> Vec<Scenario> {
             // the device with the longer suffix syncs last (it is the
             // one that rewinds and replays)
             let long_last = sc.edits.iter().position(|e| e.len() == 2).map(|d| *sc.order.last().unwrap() == d).unwrap_or(false);
-            if both && sc.clock != ClockPat::Tie && (l1 || long_last) {
+            if is_force_merge_world(&sc) || (both && sc.clock != ClockPat::Tie && (l1 || long_last)) {
                 v.push(sc);
             }
+        }
+        // the forced-overwrite worlds also on the sqlite client + server
+        if std::env::var("SYNCX_CONFIG").is_err() {
+            v.extend(scenarios(tier, Backend::Db, true).into_iter().filter(is_force_merge_world));
         }
         return v;
     }
     for (b, s) in configs(tier) {
         v.extend(scenarios(tier, b, s));
+        // quick: the forced-overwrite worlds also on the sqlite client + server
+        if tier == Tier::Quick && std::env::var("SYNCX_CONFIG").is_err() && b == Backend::Fs {
+            v.extend(scenarios(tier, Backend::Db, true).into_iter().filter(is_force_merge_world));
+        }
+    }
+    if std::env::var("SYNCX_ONLY_FORCE").is_ok() {
+        // debugging aid: the forced-overwrite worlds only
+        v.retain(is_force_merge_world);
     }
     if let Ok(n) = std::env::var("SYNCX_LIMIT") {
         v.truncate(n.parse().unwrap());
